@@ -1058,11 +1058,9 @@ func Gen(r *vh.Rng, wide bool) Scenario {
 			sc.BadStreamAfter = 1 + r.Intn(20)
 		}
 	}
-	// a faulty Close only where the driver has no reason to dial again: a connection that finishes connecting after its
-	// pool was closed is closed under the pool's lock (known finding KF-C06-1, class cfk of the close-fault tier)
-	if sc.ResetAfter > 0 || sc.BadStreamAfter > 0 || sc.TimeoutLimit > 0 {
-		sc.CloseFault = false
-	}
+	// (until the repair of KF-C06-1 a faulty Close was drawn only where the driver has no reason to dial again: a
+	// connection that finished connecting after its pool was closed was closed under the pool's lock. Since the repair
+	// resets / a frame on stream 0 / TimeoutLimit run over faulty transports too.)
 	// a response for a "never-used" id needs an id the allocator cannot reach in this run: with the 127 ids
 	// of protocol 2 only while few requests are outstanding at any time
 	if sc.Proto <= 2 && sc.Callers*sc.PerCaller > 40 {
